@@ -39,6 +39,8 @@ ASSUMPTIONS = [
     'groupby sub-tables are expected to list the rows of their key in original row order ("likewise")',
 ]
 
+KNOWN = {}      # no known findings: nothing is excluded from the search
+
 _COLS = ['k', 'j', 'u', 'w', 'm', 'n']
 
 
